@@ -16,7 +16,7 @@ from kverif.common import Deadline, case_rng, stable_hash, tier_value
 ID = 'C08'
 LEVEL = 'exploration'
 RULE = ('worlds 2-6; group mixtures per communicator (WORLD, pairs, triples, distinct groups of equal size sharing a rank); 1-12 tensors per cycle, 1-D/2-D/3-D shapes, '
-        'dtypes {float32,float64,bfloat16,int32,int64} incl. mixed-dtype sequences (an averaged integer tensor resolves to the promoted float dtype, like the unbucketed call), average/symmetric flags, capacities {1 byte, < one tensor, between, > all}, 1-4 fill/flush cycles (4 % of the cases 12-30 cycles), '
+        'dtypes {float32,float64,bfloat16,int32,int64} incl. mixed-dtype sequences (an averaged integer tensor resolves to the promoted float dtype, like the unbucketed call), average/symmetric flags, capacities {0, 1 byte, < one tensor, between, > all}, 1-4 fill/flush cycles (4 % of the cases 12-30 cycles), '
         'per-rank different interleavings across groups, all scheduler policies, line-level callback stress; non-trivial: >=2 tensors share a bucket or >=2 groups are used; '
         'distinct = hash(group mixture, capacity class, flag pattern)')
 ASSUMPTIONS = ['all members of a group submit the same tensors for that group in the same order (the API\'s contract)',
@@ -69,7 +69,7 @@ def make_plan(rng):
         cycles.append(items)
     sizes = [packed_numel(it) * DTS[it['dtype']] for c in cycles for it in c]
     pos = [x for x in sizes if x > 0] or [1]
-    cap = rng.choice([1, max(1, min(pos) - 1), (min(pos) + max(pos)) // 2 + 1, sum(sizes) // 2 + 1, sum(sizes) + 1, 25 * 10 ** 6])
+    cap = rng.choice([0, 1, max(1, min(pos) - 1), (min(pos) + max(pos)) // 2 + 1, sum(sizes) // 2 + 1, sum(sizes) + 1, 25 * 10 ** 6])
     # per-rank order of submissions: keeps the order within a group, interleaves groups differently
     orders = []
     for r in range(W):
